@@ -2,6 +2,7 @@ import Pfst.QuoteLemmas
 import Pfst.PutBack
 import Pfst.CommentLemmas
 import Pfst.DocLemmas
+import Pfst.Indentable
 
 /-!
 # C08 — putting back what was taken restores the tree; accessors read back writes
@@ -15,7 +16,7 @@ Every theorem quantifies over ALL classifications and states the (few) facts abo
 harness evaluates those facts on CPython in every run.
 -/
 namespace Pfst.C08
-open Pfst.Quote Pfst.PutBack
+open Pfst.Quote Pfst.PutBack Pfst.Indentable
 
 /-! ### string quoting -/
 
@@ -120,6 +121,63 @@ theorem docstr_roundtrip_partial (k : Cls) (hCR : k.printable CR = false) (hNUL 
    Missing link: `decodeTriple (putDocSrc ind (reprMultiline k s)) = some (indentVal ind s)` for texts WITH newlines,
    i.e. that inserting `ind` after the raw newlines of the literal commutes with decoding (the inserted blanks/tabs are
    raw characters outside every escape sequence and never between quotes). -/
+
+/-! ### indentable lines (re-indentation of copied / cut / put statements) -/
+
+/-- **Dedent undoes indent, line by line**: for any block of lines, any list of multi-line string tokens, any `docstr`
+mode and any indentation string, `_dedent_lns` after `_indent_lns` gives back every line unchanged (indentable lines
+get the prefix and lose it again; all others are not touched by either). -/
+theorem reindent_roundtrip (ind : List Char) (m : DocMode) (strs : List MStr) (ln : Nat) (lines : List (List Char)) :
+    dedentBlock ind m strs ln (indentBlock ind m strs ln lines) = lines := by
+  induction lines generalizing ln with
+  | nil => rfl
+  | cons l ls ih =>
+    simp only [indentBlock, dedentBlock, ih]
+    congr 1
+    by_cases h : (indentable m strs ln && !l.isEmpty) = true
+    · have hne : (ind ++ l).isEmpty = false := by
+        simp only [Bool.and_eq_true, Bool.not_eq_true', List.isEmpty_eq_false_iff] at h
+        simp [h.2]
+      have hi : indentable m strs ln = true := by simp only [Bool.and_eq_true] at h; exact h.1
+      rw [if_pos h, if_pos (by simp [hi, hne]), dedentLine_ind]
+    · rw [if_neg h, if_neg h]
+
+/-- **Lines that are not indentable are byte-identical** after `_indent_lns` and after `_dedent_lns`. -/
+theorem indentBlock_fixed (ind : List Char) (m : DocMode) (strs : List MStr) (lo i : Nat) (lines : List (List Char))
+    (h : indentable m strs (lo + i) = false) :
+    (indentBlock ind m strs lo lines)[i]? = lines[i]? ∧ (dedentBlock ind m strs lo lines)[i]? = lines[i]? := by
+  induction lines generalizing lo i with
+  | nil => simp [indentBlock, dedentBlock]
+  | cons l ls ih =>
+    cases i with
+    | zero =>
+      simp only [Nat.add_zero] at h
+      simp [indentBlock, dedentBlock, h]
+    | succ j =>
+      have h' : indentable m strs (lo + 1 + j) = false := by rw [← h]; congr 1; omega
+      simpa [indentBlock, dedentBlock] using ih (lo + 1) j h'
+
+/-- **A `bytes` literal is never a docstring**: the continuation lines of a multi-line `bytes` expression statement, and of
+a string inside any other expression or f-string, are not indentable in any `docstr` mode — their text is part of the
+value. -/
+theorem bytes_never_indentable (m : DocMode) (strs : List MStr) (s : MStr) (ln : Nat) (hs : s ∈ strs)
+    (hk : s.kind = .bytesExpr ∨ s.kind = .other) (hc : contLine s ln = true) : indentable m strs ln = false := by
+  have hd : isDoc m s.kind = false := by rcases hk with h | h <;> rw [h] <;> cases m <;> rfl
+  simp only [indentable, protectedLn, Bool.not_eq_false', List.any_eq_true]
+  exact ⟨s, hs, by simp [hd, hc]⟩
+
+/-- With `docstr='strict'` (and `False`) a `str` expression statement that is not the first statement of a def / class /
+module is protected as well. -/
+theorem strict_only_first (strs : List MStr) (s : MStr) (ln : Nat) (hs : s ∈ strs) (hk : s.kind = .docOther)
+    (hc : contLine s ln = true) : indentable .strict strs ln = false ∧ indentable .off strs ln = false := by
+  constructor <;>
+  · simp only [indentable, protectedLn, Bool.not_eq_false', List.any_eq_true]
+    exact ⟨s, hs, by simp [hk, isDoc, hc]⟩
+
+example :
+    let strs : List MStr := [⟨.docFirst, 1, 2⟩, ⟨.bytesExpr, 3, 4⟩]
+    indentBlock "  ".toList .all strs 0 ["def f():".toList, "  \"\"\"a".toList, "b\"\"\"".toList, "  b'''x".toList, "y'''".toList, "".toList]
+      = ["  def f():".toList, "    \"\"\"a".toList, "  b\"\"\"".toList, "    b'''x".toList, "y'''".toList, "".toList] := by decide
 
 /-! ### line comments -/
 
